@@ -234,7 +234,37 @@ def write(mods, r, features=()):
         if m.prim:
             out.append("`endcelldefine")
         out.append("")
-    return "\n".join(out)
+    text = "\n".join(out)
+    if "comments" in features:
+        text = sprinkle_comments(text, r)
+    return text
+
+
+def comment_run(r):
+    """1-3 adjacent comments (white space to the reader), block and line style mixed"""
+    run = []
+    for k in range(r.choice([1, 2, 2, 3])):
+        run.append(r.choice(["/* c%d */" % k, "/* two\n   lines */", "// line %d\n" % k]))
+    return " " + " ".join(run) + " "
+
+
+def sprinkle_comments(text, r):
+    """Comments INSIDE statements: after a comma of a port list / port map, after the module keyword, behind an attribute
+    value, before the closing semicolon.  Lines with escaped identifiers are left alone (their trailing blank matters)."""
+    lines = text.split("\n")
+    for k, ln in enumerate(lines):
+        if "\\" in ln or ln.lstrip().startswith(("//", "/*", "`")) or "comment */" in ln or r.random() > 0.25:
+            continue
+        x = r.random()
+        if ln.startswith("module ") and x < 0.4:
+            lines[k] = "module" + comment_run(r) + ln[len("module "):]
+        elif '" *)' in ln and x < 0.5:
+            lines[k] = ln.replace('" *)', '"' + comment_run(r) + "*)", 1)
+        elif ", " in ln and '"' not in ln.split(", ", 1)[0]:
+            lines[k] = ln.replace(", ", "," + comment_run(r), 1)
+        elif ln.rstrip().endswith(");"):
+            lines[k] = ln.rstrip()[:-2] + ")" + comment_run(r) + ";"
+    return "\n".join(lines)
 
 
 def bits_of(atoms):
